@@ -1,5 +1,6 @@
 import Syzgy.Lemmas.EvalDenote
 import Syzgy.Lemmas.ParseSpec
+import Syzgy.Lemmas.LexSpec
 /-!
 # C13 — metadata filters mean what the documented language says
 -/
@@ -52,6 +53,38 @@ theorem canonical_filter_is_denote (nok : NumOK) (doc : J N) (e : Expr) (he : e.
     ∃ n, parseSrc (listSrc (e.toks 0)) nok fuel = .ok n ∧ applyFilter ops rx n (some doc) = denote ops rx doc e :=
   ⟨e.ast, parse_canonical nok e he fuel hf, filter_accepts_iff ops rx doc e hw⟩
 
+/-- **the lexer reads a spelled-out token sequence back**: for every sequence of lexable tokens (names,
+    keywords, decimal literals, string literals without NUL, the punctuation of the language) written with
+    arbitrary white space in front of the first token, at least one white-space character between
+    tokens and arbitrary white space at the end, `NextToken` called repeatedly serves exactly those
+    tokens and then end-of-input for ever (`SimSrc … (listSrc tokens) positions`) -/
+theorem lexer_reads_spelled_tokens (items : List (Bytes × Token)) (trail : Bytes) (hok : SpellOK items)
+    (htrail : isWsList trail) :
+    SimSrc (nextToken (ofList (spell items ++ trail))) (listSrc (items.map (·.2))) (posOf items trail) :=
+  lexes items trail hok htrail
+
+/-- **from text to tree**: any spelling of the canonical tokens of an expression, with arbitrary white
+    space (spaces, tabs, newlines), parses — lexer, lazy token pulling, parser, end-of-input check and the
+    model's fuel included — to the documented tree -/
+theorem text_parses_to_documented_tree (nok : NumOK) (e : Expr) (he : e.OK nok) (items : List (Bytes × Token))
+    (trail : Bytes) (htoks : items.map (·.2) = e.toks 0) (hok : SpellOK items) (htrail : isWsList trail) :
+    parse (ofList (spell items ++ trail)) nok = .ok e.ast :=
+  parse_text nok e he items trail htoks hok htrail
+
+/-- every expression whose field names are names (not keywords), whose number literals are decimal literals
+    and whose strings contain no NUL byte has such a spelling: its canonical text, tokens separated by
+    single spaces -/
+theorem canonical_text_parses (nok : NumOK) (e : Expr) (he : e.OK nok) (hl : e.Lex) :
+    parse (ofList e.text) nok = .ok e.ast :=
+  parse_canonical_text nok e he hl
+
+/-- **end to end on text**: the filter built from the canonical text of a well-typed expression accepts a
+    document exactly when the expression is true of it — `BuildFilter(text)(doc) = ⟦e⟧(doc)` -/
+theorem filter_from_text_is_denote (nok : NumOK) (doc : J N) (e : Expr) (he : e.OK nok) (hl : e.Lex)
+    (hw : wellTyped ops rx doc e = true) :
+    ∃ n, parse (ofList e.text) nok = .ok n ∧ applyFilter ops rx n (some doc) = denote ops rx doc e :=
+  ⟨e.ast, parse_canonical_text nok e he hl, filter_accepts_iff ops rx doc e hw⟩
+
 /-- AND binds tighter than OR: the canonical text of `x OR (y AND z)` has no parentheses, that of
     `(x OR y) AND z` needs them; with `parser_builds_documented_tree` both parse back to the tree they came from -/
 theorem and_binds_tighter_than_or (x y z : Expr) :
@@ -80,5 +113,14 @@ def intOps : NumOps Int where
 example : wellTyped intOps (fun _ _ => none)
     (.obj [(b!"age", .num 21), (b!"name", .str b!"Jo")])
     (.and (.cmp .ge (.field b!"age") (.num b!"18")) (.strop .startsWith (.field b!"name") b!"J")) = true := by decide
+
+/-- non-vacuity of the text theorems: the expression above is spellable, and its canonical text is
+    `age >= 18 AND name STARTS_WITH "J"` -/
+example : (Expr.and (.cmp .ge (.field b!"age") (.num b!"18")) (.strop .startsWith (.field b!"name") b!"J")).Lex := by
+  refine ⟨⟨⟨word_of_list _ (by decide) (by decide), by decide, by decide⟩, ⟨[49, 56], [], by simp, by decide, by simp, Or.inl rfl⟩⟩,
+    ⟨⟨word_of_list _ (by decide) (by decide), by decide, by decide⟩, by decide⟩⟩
+
+example : (Expr.and (.cmp .ge (.field b!"age") (.num b!"18")) (.strop .startsWith (.field b!"name") b!"J")).text =
+    b!"age >= 18 AND name STARTS_WITH \"J\"" := by decide
 
 end Syzgy.C13
